@@ -16,6 +16,7 @@ package gohbase
 // Race detector on. Events go to rl_trace.ndjson for TLC (Trace_RequestLoop).
 
 import (
+	"bytes"
 	"context"
 	"fmt"
 	"math/rand"
@@ -429,6 +430,51 @@ func TestVerifRequestLoop(t *testing.T) {
 		e.cl.Split(regs[0], []byte("b"), "rs2", "rs3")
 		finish(e, name)
 	})
+
+	// ---- W5 (Outage.tla, findRegion path): a second caller finds the freshly looked-up region in the cache while the caller
+	// that looked it up is between publishing it and starting its establisher. It must find the region already marked
+	// unavailable and wait - a second establisher for the same region ends in a panic (close of nil channel).
+	for _, overl := range []bool{false, true} {
+		synctest.Test(t, func(t *testing.T) {
+			name := fmt.Sprintf("W5/second-caller-finds-the-region-while-its-finder-is-publishing-it/after-split=%v", overl)
+			e := newRLEnv(1, 2)
+			regs := e.cl.OnlineRegions("t")
+			key := "a"
+			if overl {
+				// the region the finder publishes replaces an older cached one (the finder also drops its client entry): region 0
+				// is known, region 1 is not; they merge; a key of the former region 1 misses the cache
+				e.goGet("a")
+				time.Sleep(time.Second)
+				synctest.Wait()
+				e.cl.Merge(regs[0], regs[1], "rs3")
+				key = "x"
+			}
+			parked, release := make(chan struct{}), make(chan struct{})
+			var once atomic.Bool
+			var ests atomic.Int32
+			simSetHook(func(point string, c any, arg any) {
+				if point == "findRegion.cached" && once.CompareAndSwap(false, true) {
+					close(parked)
+					<-release
+				}
+				if r, ok := arg.(hrpc.RegionInfo); ok && point == "establish.dialed" && bytes.HasPrefix(r.Name(), []byte("t,,")) {
+					ests.Add(1)
+				}
+			})
+			e.goGet(key)
+			<-parked
+			e.goGet(key) // finds the region in the cache
+			e.goPut(key)
+			time.Sleep(time.Second)
+			close(release)
+			time.Sleep(5 * time.Second)
+			synctest.Wait()
+			if n := ests.Load(); n > 1 {
+				rep.bad("two-establishers", "%s: %d establishers dialled for the same freshly found region", name, n)
+			}
+			finish(e, name)
+		})
+	}
 
 	// ---- W4: hbase:meta lags behind a move: the old server answers "not serving" (to requests and to the probe) while the region
 	// is already served elsewhere; meta catches up a little later. The establisher must look the region up again.
